@@ -39,17 +39,25 @@ where
             });
         }
         let num_nodes = self.number_of_nodes();
-        let num_edges = self.get_all_edges().len();
-        let mut row_inds: Vec<usize> = vec![0; num_edges];
-        let mut col_inds: Vec<usize> = vec![0; num_edges];
-        let mut data = vec![0.0; num_edges];
-        let mut count = 0;
+        let mut row_inds: Vec<usize> = vec![];
+        let mut col_inds: Vec<usize> = vec![];
+        let mut data: Vec<f64> = vec![];
         for (u, hm) in self.edges_map.iter() {
             for (v, edges) in hm.iter() {
-                row_inds[count] = *u;
-                col_inds[count] = *v;
-                data[count] = edges[0].weight;
-                count += 1;
+                // an unweighted edge (NaN weight) is represented by 1.0
+                let weight = match edges[0].weight.is_nan() {
+                    true => 1.0,
+                    false => edges[0].weight,
+                };
+                row_inds.push(*u);
+                col_inds.push(*v);
+                data.push(weight);
+                // an undirected edge is stored once; the matrix is symmetric
+                if !self.specs.directed && u != v {
+                    row_inds.push(*v);
+                    col_inds.push(*u);
+                    data.push(weight);
+                }
             }
         }
         let tri_matrix = TriMat::from_triplets((num_nodes, num_nodes), row_inds, col_inds, data);
